@@ -8,7 +8,7 @@
 
 //! The Fréchet distribution `Fréchet(μ, σ, α)`.
 
-use crate::{Distribution, OpenClosed01};
+use crate::{Distribution, Open01};
 use core::fmt;
 use num_traits::Float;
 use rand::{Rng, RngExt};
@@ -48,7 +48,7 @@ use rand::{Rng, RngExt};
 pub struct Frechet<F>
 where
     F: Float,
-    OpenClosed01: Distribution<F>,
+    Open01: Distribution<F>,
 {
     location: F,
     scale: F,
@@ -82,7 +82,7 @@ impl std::error::Error for Error {}
 impl<F> Frechet<F>
 where
     F: Float,
-    OpenClosed01: Distribution<F>,
+    Open01: Distribution<F>,
 {
     /// Construct a new `Frechet` distribution with given `location`, `scale`, and `shape`.
     pub fn new(location: F, scale: F, shape: F) -> Result<Frechet<F>, Error> {
@@ -106,10 +106,11 @@ where
 impl<F> Distribution<F> for Frechet<F>
 where
     F: Float,
-    OpenClosed01: Distribution<F>,
+    Open01: Distribution<F>,
 {
     fn sample<R: Rng + ?Sized>(&self, rng: &mut R) -> F {
-        let x: F = rng.sample(OpenClosed01);
+        // `Open01`: both `x = 0` and `x = 1` would yield a non-finite sample
+        let x: F = rng.sample(Open01);
         self.location + self.scale * (-x.ln()).powf(-self.shape.recip())
     }
 }
